@@ -1,6 +1,7 @@
 (* Side conditions of the Pratt round-trip theorem (C02), as executable definitions:
    `printable` (the parser's own restrictions on a surface tree), `need` (recursion levels of
    inner_parse_expression the printed text uses), `needb` (nesting of subscript brackets),
+   `needa` (nesting of array literals / comprehensions: array_dimension),
    `follow` (which token may come next).  No proofs here. *)
 From TeraV Require Import Model.Value Model.Pratt.
 Open Scope nat_scope.
@@ -20,8 +21,8 @@ Fixpoint size (s : sx) : nat :=
   | SCall _ kw => S (list_sum (map (fun p : str * sx => match p with (_, v) => size v end) kw))
   | STern c t f => S (size c + size t + size f)
   | SParen e => S (size e)
-  | SArr items => S (list_sum (map (fun p : bool * sx => match p with (_, v) => size v end) items))
-  | SMap es => S (list_sum (map (fun p : option mkey * sx => match p with (_, v) => size v end) es))
+  | SArr items _ => S (list_sum (map (fun p : bool * sx => match p with (_, v) => size v end) items))
+  | SMap es _ => S (list_sum (map (fun p : option mkey * sx => match p with (_, v) => size v end) es))
   | SComp e _ _ t c => S (size e + size t + osz c)
   end.
 
@@ -44,8 +45,11 @@ Fixpoint nodup_names (l : list str) : bool :=
 Definition plain (x : str) : bool := match kw_of x with KPlain => true | _ => false end.
 Definition not_kw_not (x : str) : bool := match kw_of x with KNot => false | _ => true end.
 
-(* the parser's own side conditions on a surface tree (grammar covered by the theorem:
-   everything except array/map literals and list comprehensions) *)
+Definition nonempty {A} (l : list A) : bool := match l with [] => false | _ => true end.
+
+(* the parser's own side conditions on a surface tree.  Array / map literals: any elements, spreads
+   at any position, a trailing comma only after at least one element (`[,]` is rejected);
+   list comprehensions: the loop variables are not reserved names (parser.rs RESERVED_NAMES). *)
 Fixpoint printable (s : sx) : bool :=
   match s with
   | SConst c => scalar c
@@ -74,7 +78,53 @@ Fixpoint printable (s : sx) : bool :=
       && forallb (fun p : str * sx => match p with (_, v) => printable v end) kw
   | STern c t f => printable c && printable t && printable f
   | SParen e => printable e
-  | SArr _ | SMap _ | SComp _ _ _ _ _ => false
+  | SArr items trail =>
+      (if trail then nonempty items else true)
+      && forallb (fun p : bool * sx => match p with (_, v) => printable v end) items
+  | SMap es trail =>
+      (if trail then nonempty es else true)
+      && forallb (fun p : option mkey * sx => match p with (_, v) => printable v end) es
+  | SComp e k v target cond =>
+      printable e && negb (is_reserved v)
+      && match k with Some k' => negb (is_reserved k') | None => true end
+      && printable target
+      && match cond with Some x => printable x | None => true end
+  end.
+
+(* an AST the parser can produce: literal-only containers are folded into constants (parse_array /
+   parse_map, `literal_only`), so an EArr / EMap node has at least one non-constant or spread item,
+   and a folded map constant has distinct keys *)
+Fixpoint keys_nodup (ks : list mkey) : bool :=
+  match ks with [] => true | k :: r => negb (existsb (mkey_eqb k) r) && keys_nodup r end.
+(* a constant the parser can have folded: a folded map is a HashMap, its keys are distinct *)
+Fixpoint const_ok (c : const) : bool :=
+  match c with
+  | CArr l => forallb const_ok l
+  | CMap m => keys_nodup (map fst m) && forallb (fun kv : mkey * const => const_ok (snd kv)) m
+  | _ => true
+  end.
+
+Fixpoint normal (e : expr) : bool :=
+  let on := fun (o : option expr) => match o with Some x => normal x | None => true end in
+  match e with
+  | EConst c => const_ok c
+  | EVar _ => true
+  | EAttr e _ _ => normal e
+  | EItem e i _ => normal e && normal i
+  | ESlice e a b c _ => normal e && on a && on b && on c
+  | EUn _ e => normal e
+  | EBin _ a b => normal a && normal b
+  | ETest e _ kw | EFilter e _ kw =>
+      normal e && forallb (fun p : str * expr => match p with (_, v) => normal v end) kw
+  | ECall _ kw => forallb (fun p : str * expr => match p with (_, v) => normal v end) kw
+  | ETern c t f => normal c && normal t && normal f
+  | EArr items =>
+      match as_consts items with None => true | Some _ => false end
+      && forallb (fun p : bool * expr => match p with (_, v) => normal v end) items
+  | EMap es =>
+      match as_const_entries es with None => true | Some _ => false end
+      && forallb (fun p : option mkey * expr => match p with (_, v) => normal v end) es
+  | EComp e _ _ t c => normal e && normal t && on c
   end.
 
 Definition needw (p l n : nat) : nat := if l <? p then S n else n.
@@ -100,7 +150,13 @@ Fixpoint need (s : sx) : nat :=
   | SCall _ kw => S (fold_right Nat.max 0 (map (fun p : str * sx => match p with (_, v) => need v end) kw))
   | STern c t f => Nat.max (needw (S lvl_tern) (lvl t) (need t)) (S (Nat.max (need c) (need f)))
   | SParen e => S (need e)
-  | _ => 1
+  (* elements / values are parsed one inner_parse_expression level down *)
+  | SArr items _ => S (fold_right Nat.max 0 (map (fun p : bool * sx => match p with (_, v) => need v end) items))
+  | SMap es _ => S (fold_right Nat.max 0 (map (fun p : option mkey * sx => match p with (_, v) => need v end) es))
+  | SComp e _ _ t c =>
+      S (Nat.max (need e)
+           (Nat.max (needw (S lvl_tern) (lvl t) (need t))
+                    (match c with Some x => needw (S lvl_tern) (lvl x) (need x) | None => 0 end)))
   end.
 
 (* nesting of subscript brackets (num_left_brackets) *)
@@ -119,7 +175,32 @@ Fixpoint needb (s : sx) : nat :=
   | SCall _ kw => fold_right Nat.max 0 (map (fun p : str * sx => match p with (_, v) => needb v end) kw)
   | STern c t f => Nat.max (needb c) (Nat.max (needb t) (needb f))
   | SParen e => needb e
-  | _ => 0
+  | SArr items _ => fold_right Nat.max 0 (map (fun p : bool * sx => match p with (_, v) => needb v end) items)
+  | SMap es _ => fold_right Nat.max 0 (map (fun p : option mkey * sx => match p with (_, v) => needb v end) es)
+  | SComp e _ _ t c => Nat.max (needb e) (Nat.max (needb t) (match c with Some x => needb x | None => 0 end))
+  end.
+
+(* nesting of array literals and list comprehensions (array_dimension, parser.rs parse_array):
+   incremented for the elements of `[..]` and for the element expression of a comprehension,
+   already decremented again when the target / condition of a comprehension are parsed *)
+Fixpoint needa (s : sx) : nat :=
+  match s with
+  | SConst _ | SVar _ => 0
+  | SAttr e _ _ => needa e
+  | SItem e i _ => Nat.max (needa e) (needa i)
+  | SSlice e a b c _ =>
+      let oa := fun (o : option sx) => match o with Some x => needa x | None => 0 end in
+      Nat.max (needa e) (Nat.max (oa a) (Nat.max (oa b) (oa c)))
+  | SUn _ e => needa e
+  | SBin _ a b | SNotIn a b => Nat.max (needa a) (needa b)
+  | STest e _ kw _ | SFilter e _ kw =>
+      Nat.max (needa e) (fold_right Nat.max 0 (map (fun p : str * sx => match p with (_, v) => needa v end) kw))
+  | SCall _ kw => fold_right Nat.max 0 (map (fun p : str * sx => match p with (_, v) => needa v end) kw)
+  | STern c t f => Nat.max (needa c) (Nat.max (needa t) (needa f))
+  | SParen e => needa e
+  | SArr items _ => S (fold_right Nat.max 0 (map (fun p : bool * sx => match p with (_, v) => needa v end) items))
+  | SMap es _ => fold_right Nat.max 0 (map (fun p : option mkey * sx => match p with (_, v) => needa v end) es)
+  | SComp e _ _ t c => Nat.max (S (needa e)) (Nat.max (needa t) (match c with Some x => needa x | None => 0 end))
   end.
 
 (* loop iterations of the frame that parses `raw s` which the left spine of s uses *)
